@@ -33,6 +33,8 @@ REAL_VS_STUB = common.REAL_VS_STUB
 QUICK_RUNS = 2200
 FULL_ENUM_MAX = 400
 O_SLICE_UNITS = 30
+COST_CAP = 8_000_000  # bound on loop iterations per wire over all cut runs
+LONG_WIRE_BYTES = 600_000  # bound on wire length x number of cut points per wire
 HEAVY_WIRE = 30_000  # loop iterations of one uncut run above which the cut points are thinned out
 EXPECTED_PROBES = {
     "quick": ["cut_frame_boundary", "cut_ubx_length", "cut_ubx_checksum", "cut_nmea_crlf", "cut_rtcm_crc", "cut_rtcm_hdr", "clean_wires", "dirty_wires", "validate_0", "big_frame_wires"],
@@ -212,11 +214,26 @@ def run_unit(unit) -> UnitResult:
 
     with StepMeter(10**9) as meter:
         run_reader(wire, cfg, {"kind": "file"})
+    cuts = list(cuts)
     if meter.used > HEAVY_WIRE:
         stride = 1 + meter.used // HEAVY_WIRE
         keep = set(sched.interesting_offsets(spans))
         cuts = [k for k in cuts if k in keep or k % stride == 0 or k == len(wire)]
         c.hit("heavy_wires_thinned")
+    if meter.used * len(cuts) * len(VARIANTS) > COST_CAP:
+        # frames that cost a second to parse (group counts of 65 535): a handful of cut points only
+        n_keep = max(4, COST_CAP // (meter.used * len(VARIANTS)))
+        step = max(1, len(cuts) // n_keep)
+        cuts = cuts[::step] + [len(wire)]
+        c.hit("costly_wires_thinned")
+    if len(wire) * len(cuts) > LONG_WIRE_BYTES:
+        # long wires (runaway lines, 12 KiB frames) through a byte-at-a-time socket wrapper: keep every
+        # n-th sampled cut so that bytes-read x cuts stays bounded; offsets around the large frame's
+        # 1 KiB multiples come first in the list of interesting points and survive
+        n_keep = max(24, LONG_WIRE_BYTES // max(len(wire), 1))
+        step = max(1, len(cuts) // n_keep)
+        cuts = cuts[::step] + [len(wire)]
+        c.hit("long_wires_thinned")
     found = False
     for variant in VARIANTS:
         base = _base(scn, wire, variant)
